@@ -38,16 +38,18 @@ prop("C17", "file_lines confines changes to the selected code", "proof",
      assumptions=["64-bit target (global size_of usize == 8)", "trusted 1-line usize shims for std::cmp::{min,max} in the Verus unit"])
 
 prop("C07", "Line-width and trailing-whitespace diagnostics are exact", "proof",
-     ["U03", "U04"],
+     ["U03", "U04", "U24"],
      [{"clause": "per-step state transformer of FormatLines::{new_line,char,push_err,should_report_error} equals the specification; no overflow/underflow (all chars, all usize configs, tab_spaces >= 1)", "status": "proved", "by": "U03 (Verus)"},
       {"clause": "fold over any text of any length: errors == spec_report(text, cfg, skipped, selection) — exactly the lines that are selected, not skipped and (too wide, tab = tab_spaces, or ending in a blank) are reported with their 1-based number (lemma_reported_iff); with error_on_unformatted off the only extra exemption is comment/string lines, a trailing blank elsewhere is always reported (lemma_soft)", "status": "proved", "by": "U03 (Verus: drive + lemmas)"},
       {"clause": "the real iterate + CharClasses + is_skipped_line + FileLines::contains_line agree with the same specification", "status": "bounded", "by": "U04 (native, texts <= 5/7 chars)"},
       {"clause": "a TrailingWhitespace entry sets has_operational_errors (hence exit 1): FormatReport::track_errors on the real Rc<RefCell> state", "status": "bounded", "by": "U04 (native: all 128 flag states x kind sequences <= 3/4)"},
+      {"clause": "'belongs to skipped code': the range recorded for a #[rustfmt::skip] item is exactly the OUTPUT lines of the item (attribute lines excepted), whatever happened to the line count of earlier code", "status": "bounded", "by": "U24 (real push_skipped_with_span / push_rewrite_inner / push_str on a shim visitor; complete over the layout domain)"},
       {"clause": "char kinds are those produced by CharClasses (comment / string classification itself)", "status": "not_decided", "by": "assumption here; bounded check in U10 (C03)"}],
      "The C07 statement is transcribed as the spec function `report`; Verus proves the verbatim step functions against it and the fold for texts of unbounded length. "
      "The loop skeleton of FormatLines::iterate is restated once (10 lines) because CharClasses is an iterator adapter outside Verus; U04 ties the real iterate/CharClasses to the same specification bounded-exhaustively.",
      statement_clauses={"U03": "every line of the emitted text that is wider than max_width (a tab counting as tab_spaces columns) or ends in a blank, and that neither belongs to skipped code nor lies outside the selected line ranges, is reported with its 1-based line number, and no other line is reported",
-                        "U04": "same sentence, on the real format_lines; a trailing blank ... makes the run exit with 1"},
+                        "U04": "same sentence, on the real format_lines; a trailing blank ... makes the run exit with 1",
+                        "U24": "every line ... that neither belongs to skipped code ... is reported ..., and no other line is reported"},
      assumptions=["64-bit target", "1 <= tab_spaces <= 65535, text length <= 2^32 (preconditions of the fold)", "char::is_whitespace is the uninterpreted vstd predicate in V, the real one in B",
                   "FileLines::contains_line is an arbitrary predicate in V (external_body), the real one in B; is_skipped_line's contract is assumed in V and checked in U04"])
 
